@@ -1119,6 +1119,20 @@ def struct_val(prog, adt_key, fields=None, default=None):
     return Val("adt", vals, (adt_key, prog.adt(adt_key)["variants"][0]["name"]))
 
 
+def async_state(prog, fn_key, binder):
+    """initial coroutine state of `async fn fn_key`: one slot per captured parameter, in order; binder(name, type, index) gives the
+    value of a parameter (None -> an opaque marker). Parameters are recognised by TYPE or position, so renaming one changes nothing."""
+    shell = prog.bodies.get(fn_key)
+    ab = prog.async_body(fn_key)
+    caps = ab.raw.get("captures", []) if ab is not None else []
+    vals = []
+    for i, c in enumerate(caps):
+        ty = shell.locals[1 + i]["ty"] if shell is not None and 1 + i < len(shell.locals) else ""
+        v = binder(c.get("var"), ty, i)
+        vals.append(v if v is not None else marker("P%d" % i))
+    return Val("adt", vals, ("coroutine", "state"))
+
+
 def success_model(body, overrides=None, skip_unknown_loops=False):
     """call model for `success-path traces` of (async) functions: awaited futures complete (Poll::Ready), fallible calls
     succeed (Ok(unknown)); `overrides(cs, args)` is consulted first. Used to extract the ORDER of effects on the success
